@@ -182,15 +182,23 @@ def run_one(v, r, mut):
             rc, out = sh("./check %s --tier quick %s 2>&1 | tail -3" % (pid, flag), v, timeout=1500, env=env)
             first = False
             if "VIOLATION" in out:
+                if "no-failing-input-found" in out:
+                    res.setdefault("tie_by", []).append(pid)      # keep looking for a property with a failing input
+                    continue
                 res["outcome"] = "killed"
                 res["by"] = pid
-                res["with_input"] = "no-failing-input-found" not in out
+                res["with_input"] = True
                 return res
             if rc != 0 and "tier=" not in out:
                 res["outcome"] = "check-error"
                 res["by"] = pid
                 res["detail"] = out[-300:]
                 return res
+        if res.get("tie_by"):
+            res["outcome"] = "killed"
+            res["by"] = res["tie_by"][0]
+            res["with_input"] = False
+            return res
         res["outcome"] = "SURVIVED"
         return res
     finally:
